@@ -177,7 +177,10 @@ def run_case(case):
         if not numpy.allclose(ext.transform(Xr), ref.transform(Xr), rtol=1e-11, atol=0):
             bad("column differs (real values)", "")
         # names
-        for feats in (None, ["f%d" % i for i in range(nf)]):
+        # caller-supplied names: plain ones, and names that extend one another by punctuation (lags t / t-1, pandas-mangled
+        # duplicates x / x.1, dotted paths)
+        tricky = ["t", "t-1", "t-2", "t.1", "x", "x.1", "x-y", "t+1", "a", "a.b", "a.b.c", "ab"]
+        for feats in (None, ["f%d" % i for i in range(nf)], tricky[:nf], tricky[::-1][:nf]):
             names = list(ext.get_feature_names_out(feats))
             fl = feats or ["x%d" % i for i in range(nf)]
             if len(names) != len(powers):
